@@ -50,6 +50,14 @@ def _quiet():
     return cm
 
 
+def _call(fn, *a, **kw):
+    """value of a call into the real code, or nan if it raised (a raise is a disagreement, never a crash of the check)"""
+    try:
+        return float(fn(*a, **kw))
+    except Exception:  # noqa
+        return math.nan
+
+
 def _close(a, b, rel=1e-9):
     if a == b:
         return True
@@ -128,7 +136,7 @@ def _ess_T(tier, drv):
             n = _len(rng)
             fam, w = _weights(rng, n)
             a = np.array(w, dtype=float)
-            v = float(t.effective_sample_size(a.copy()))
+            v = _call(t.effective_sample_size, a.copy())
             lines.append(f"ess.F w={flist(w, f2hex)}")
             meta.append(("ess", w, v))
             c.case(("ess", [f2hex(x) for x in w]), n >= 2 and not _allequal(w))
@@ -142,7 +150,7 @@ def _ess_T(tier, drv):
                 sh = rng.choice([0.0, 1e3, -1e5, 700.0, -745.0])
                 lw = [sc * rng.gauss(0, 1) + sh for _ in range(n)]
             la = np.array(lw, dtype=float)
-            v2 = float(t.compute_ess(la.copy()))
+            v2 = _call(t.compute_ess, la.copy())
             lines.append(f"cess.F logw={flist(lw, f2hex)}")
             meta.append(("cess", lw, v2))
             c.case(("cess", [f2hex(x) for x in lw]), n >= 2 and not _allequal(lw))
@@ -198,7 +206,7 @@ def _ess_Q(tier, drv):
         e = rng.randint(-60, 60)
         ws = [Fraction(k) * Fraction(2) ** (e - m) for k in ks]
         a = np.array([float(x) for x in ws])
-        v = float(t.effective_sample_size(a.copy()))
+        v = _call(t.effective_sample_size, a.copy())
         lines.append(f"ess.Q w={flist(ws, frac2s)}")
         meta.append((ws, v))
         c.case([frac2s(x) for x in ws], n >= 2 and len(set(ks)) > 1)
@@ -326,9 +334,8 @@ def _trim_Q(tier, drv):
     ess_vals = [0.99, 0.99, 0.9, 0.5, 0.75, 0.999, 0.25, 0.97]
     lines, meta = [], []
     for _ in range(n_cases):
-        n, bins = rng.choice(pairs)
-        if n == 1 and rng.random() < 0.8:
-            n, bins = rng.choice(pairs)
+        bins = rng.choice(sorted({b for _, b in pairs}))
+        n = rng.choice([a for a, b in pairs if b == bins and (a > 1 or rng.random() < 0.1)] or [1])
         m = rng.randint(max(4, (n - 1).bit_length()), 16)
         fam, ks = _pow2_ints(rng, n, m)
         e = rng.choice([0, 0, 0, 3, -7, 40])
@@ -339,9 +346,14 @@ def _trim_Q(tier, drv):
     res = drv.batch(lines)
     for (ws, ess, bins, fam), line, ans in zip(meta, lines, res):
         wf = [float(x) for x in ws]
-        s, wt, wc = _run_trim(wf, ess, bins)
         mo = _parse_trim(ans, Fraction)
         n = len(ws)
+        try:
+            s, wt, wc = _run_trim(wf, ess, bins)
+        except Exception as ex:  # noqa
+            c.case((line,), True)
+            c.disagree(kind="trim", w_hex=[f2hex(x) for x in wf], ess=ess, bins=bins, impl=f"raised {type(ex).__name__}: {ex}", model=ans[:200])
+            continue
         c.case((line,), mo is not None and (len(mo["idx"]) < n or mo["stop"] < bins - 1))
         c.count("fam:" + fam)
         c.count(f"bins={bins}")
@@ -357,6 +369,8 @@ def _trim_Q(tier, drv):
             continue
         c.count("trimmed" if len(mo["idx"]) < n else "kept_all")
         c.count("passes>1" if mo["stop"] < bins - 1 else "passes=1")
+        if bins > 1 and (Fraction(99 * mo["stop"] * (n - 1), 100 * (bins - 1))).denominator > 1:
+            c.count("stop-pass-interpolates")
         same = (s.tolist() == mo["idx"] and len(wt) == len(mo["wt"])
                 and all(float(q) == x for q, x in zip(mo["wt"], wt.tolist()))
                 and all(float(x / sum(ws)) == y for x, y in zip(ws, wc.tolist())))
@@ -432,9 +446,14 @@ def _trim_T(tier, drv):
         meta.append((w, ess, bins, fam))
     res = drv.batch(lines)
     for (w, ess, bins, fam), line, ans in zip(meta, lines, res):
-        s, wt, wc = _run_trim(w, ess, bins)
         mo = _parse_trim(ans, hex2f)
         n = len(w)
+        try:
+            s, wt, wc = _run_trim(w, ess, bins)
+        except Exception as ex:  # noqa
+            c.case(([f2hex(x) for x in w], ess, bins), True)
+            c.disagree(kind="trim", w_hex=[f2hex(x) for x in w], ess=ess, bins=bins, impl=f"raised {type(ex).__name__}: {ex}", model=ans[:200])
+            continue
         c.case(([f2hex(x) for x in w], ess, bins), mo is not None and (len(mo["idx"]) < n or mo["stop"] < bins - 1))
         c.count("fam:" + fam)
         c.count("sampler-constants" if (ess, bins) == (0.99, 1000) else "other-constants")
@@ -516,6 +535,8 @@ def _real_volvar(x, w):
     cm = _quiet()
     try:
         return float(t.volume_variation(np.array(x, dtype=float), None if w is None else np.array(w, dtype=float)))
+    except Exception:  # noqa
+        return math.nan
     finally:
         cm.__exit__(None, None, None)
 
